@@ -179,6 +179,7 @@ Section Complete.
   Definition P_tree (t : tree) : Prop :=
     wf_tree g t ->
     forall st i pr X rest,
+      st <> [] ->
       In i (ann_of (top_state st)) -> get_prod g (li_p i) = Some pr ->
       nth_error (rhs pr) (li_d i) = Some X -> root_sym g t = Some X ->
       In (la rest) (after pr i) ->
@@ -190,6 +191,7 @@ Section Complete.
   Lemma children_run ts :
     All P_tree ts -> All (wf_tree g) ts ->
     forall st i pr rest,
+      st <> [] ->
       In i (ann_of (top_state st)) -> get_prod g (li_p i) = Some pr ->
       map (root_sym g) ts = map Some (skipn (li_d i) (rhs pr)) ->
       In (la rest) (eff_L i) ->
@@ -200,7 +202,7 @@ Section Complete.
         li_d j = (li_d i + length ts)%nat /\
         (forall x, In x (eff_L i) -> In x (eff_L j)).
   Proof.
-    induction ts as [|t r IH]; intros HP Hwf st i pr rest Hi Hp Hroots Hla.
+    induction ts as [|t r IH]; intros HP Hwf st i pr rest Hne Hi Hp Hroots Hla.
     - exists [], i. cbn. repeat split; auto; try lia. constructor.
     - destruct HP as [HPt HPr]. destruct Hwf as [Hwt Hwr].
       destruct (skipn (li_d i) (rhs pr)) as [|X xs] eqn:Hskip; [discriminate|].
@@ -218,12 +220,12 @@ Section Complete.
       assert (Hla1 : In (la (flat_map leaves r ++ rest)) (after pr i)).
       { unfold TableComplete.after. rewrite Hxs'. apply la_after; assumption. }
       cbn [flat_map]. rewrite <- app_assoc.
-      destruct (HPt Hwt st i pr X (flat_map leaves r ++ rest) Hi Hp Hnth HX Hla1)
+      destruct (HPt Hwt st i pr X (flat_map leaves r ++ rest) Hne Hi Hp Hnth HX Hla1)
         as (s' & j1 & Hrun1 & Hj1 & Hp1 & Hd1 & HL1).
       assert (Hp' : get_prod g (li_p j1) = Some pr) by (rewrite Hp1; exact Hp).
       assert (Hroots' : map (root_sym g) r = map Some (skipn (li_d j1) (rhs pr))).
       { rewrite Hd1, Hxs'. exact Hxs. }
-      destruct (IH HPr Hwr ((s', t) :: st) j1 pr rest Hj1 Hp' Hroots' (HL1 _ Hla))
+      destruct (IH HPr Hwr ((s', t) :: st) j1 pr rest ltac:(discriminate) Hj1 Hp' Hroots' (HL1 _ Hla))
         as (st' & j & Hrun2 & Hrev & Hlen & Hj & Hpj & Hdj & HL2).
       exists (st' ++ [(s', t)]), j. rewrite <- app_assoc. cbn [app].
       split; [eapply lsteps_trans; eassumption|].
@@ -256,7 +258,7 @@ Section Complete.
 
   Lemma tree_run t : P_tree t.
   Proof.
-    induction t as [y s e|q s e cs IH] using tree_ind2; intros Hwf st i pr X rest Hi Hp Hnth HX Hla.
+    induction t as [y s e|q s e cs IH] using tree_ind2; intros Hwf st i pr X rest Hne Hi Hp Hnth HX Hla.
     - cbn in HX. inversion HX; subst X.
       pose proof (item_ok_at _ _ Hi) as Hok. unfold TableComplete.item_ok in Hok.
       rewrite Hp, Hnth in Hok. apply existsb_exists in Hok. destruct Hok as (act & Hact & Hok).
@@ -275,7 +277,7 @@ Section Complete.
       assert (Hq0 : get_prod g (li_p j0) = Some prq) by (rewrite Hpj0; exact Hq).
       assert (Hr0 : map (root_sym g) cs = map Some (skipn (li_d j0) (rhs prq))).
       { rewrite Hdj0. exact Hroots. }
-      destruct (children_run cs IH Hall st j0 prq rest Hj0 Hq0 Hr0 (HL0 _ Hla))
+      destruct (children_run cs IH Hall st j0 prq rest Hne Hj0 Hq0 Hr0 (HL0 _ Hla))
         as (st' & jf & Hrun & Hrev & Hlen & Hjf & Hpjf & Hdjf & HLf).
       (* the final item has the dot at the end: reduce *)
       assert (Hlen_rhs : length cs = length (rhs prq)).
@@ -298,7 +300,7 @@ Section Complete.
       assert (Hstep : lstep g tb stop_id (st' ++ st, rest) ((s', TNode q s e cs) :: st, rest)).
       { rewrite <- Hrev, <- Hpj0.
         apply (ls_reduce g tb stop_id (st' ++ st) rest (li_p j0) prq st' st s' s e);
-          [exact Hact|exact Hq0|reflexivity|lia|exact Hg]. }
+          [exact Hact|exact Hq0|reflexivity|lia|exact Hne|exact Hg]. }
       econstructor; [exact Hstep|constructor].
   Qed.
 
@@ -316,7 +318,7 @@ Section Complete.
     assert (Hla : In (la []) (after pr0 i0)).
     { unfold TableComplete.after. rewrite Hid, Hr0. cbn. unfold TableComplete.eff_L.
       rewrite Hip. cbn. left. reflexivity. }
-    destruct (tree_run t Hwf [(O, d)] i0 pr0 (NT start) [] Hi0 Hp Hnth Hroot Hla)
+    destruct (tree_run t Hwf [(O, d)] i0 pr0 (NT start) [] ltac:(discriminate) Hi0 Hp Hnth Hroot Hla)
       as (s' & j & Hrun & Hj & Hpj & Hdj & _).
     rewrite app_nil_r in Hrun.
     exists [(s', t); (O, d)]. split; [exact Hrun|].
